@@ -1645,8 +1645,8 @@ Proof.
       destruct (add_field_core_same card st k0 v0) as [_ A2].
       cbn zeta. split; [|rewrite I2; exact S3].
       intros k. rewrite I1. cbn [get]. destruct (bytes_eqb k0 k) eqn:E.
-      * apply bytes_eqb_eq in E. subst k. rewrite A2, Efl. cbn [flag_true]. Show. rewrite S1.
-        destruct (get k0 r); reflexivity.
+      * apply bytes_eqb_eq in E. subst k. rewrite A2, Efl. cbn [flag_true].
+        destruct (get k0 r); exact S1.
       * assert (Hne : k0 <> k) by (intro; subst; rewrite bytes_eqb_refl in E; discriminate).
         destruct (add_field_core_other card st k0 v0 k Hne) as [_ B2].
         rewrite (S2 k Hne), B2, M1, S3. reflexivity.
